@@ -15,7 +15,11 @@ unsigned long long vf_replay_next (void)
     }
   while (fgets (line, sizeof line, vf_f))
     {
-      if (line[0] == '#' || line[0] == '\n') continue;
+      int complete = strchr (line, '\n') != NULL;
+      int skip = (line[0] == '#' || line[0] == '\n');
+      while (!complete && fgets (line + 1, sizeof line - 1, vf_f))   /* swallow the rest of an over-long line */
+        complete = strchr (line + 1, '\n') != NULL;
+      if (skip) continue;
       return strtoull (line, NULL, 0);
     }
   vf_exhausted++;
